@@ -40,6 +40,25 @@ RoleHeads == {<<"class", TRUE, FALSE>>}
 TwoStyles == {"", "//"}
 RoleHeadsT == {<<"class", TRUE, FALSE>>, <<"struct", TRUE, FALSE>>}
 
+\* ---- operators: every operator that has a unary and a binary form, unary-only (prefix / postfix), binary-only,
+\* typecast operators, operator() and operator[], and a plain overloaded name - in both declaration orders
+OpMem(nm, role, ret, ps) == [Mem("sig", "published") EXCEPT !.nm = nm, !.sig = [role |-> role, ret |-> ret, ps |-> ps]]
+Self(m) == ClsT(1, m)
+Other == <<Par(Self("cref"), TRUE, FALSE)>>
+TwoFormOps == {"operator +", "operator -", "operator *", "operator &"}
+TypecastNames == {"operator typecast int", "operator typecast double"}
+OpSet ==
+  {OpMem(n, "const", Self("val"), <<>>) : n \in TwoFormOps} \cup {OpMem(n, "const", Self("val"), Other) : n \in TwoFormOps}
+  \cup {OpMem("operator !", "const", AtomT("bool"), <<>>), OpMem("operator ~", "const", Self("val"), <<>>)}
+  \cup {OpMem(n, "meth", Self("ref"), <<>>) : n \in {"operator ++", "operator --"}}                               \* prefix
+  \cup {OpMem(n, "meth", Self("val"), <<Par(AtomT("int"), FALSE, FALSE)>>) : n \in {"operator ++", "operator --"}}  \* postfix
+  \cup {OpMem("operator ==", "const", AtomT("bool"), Other), OpMem("operator /", "const", Self("val"), <<Par(AtomT("int"), TRUE, FALSE)>>)}
+  \cup {OpMem("operator typecast int", "const", AtomT("int"), <<>>), OpMem("operator typecast double", "const", AtomT("double"), <<>>)}
+  \cup {OpMem("operator ()", "const", AtomT("int"), <<Par(AtomT("int"), TRUE, FALSE)>>),
+        OpMem("operator []", "const", AtomT("int"), <<Par(AtomT("int"), TRUE, FALSE)>>)}
+  \cup {OpMem("ov", "meth", AtomT("void"), ps) : ps \in {<<>>, <<Par(AtomT("int"), TRUE, FALSE)>>, <<Par(AtomT("double"), TRUE, FALSE)>>}}
+OpMembers == <<OpSet, {}>>
+
 \* ---- bases: up to three classes in a publish region, every base list of length <= 2
 BaseMembers == <<{Mem("meth", "published"), Mem("vmeth", "published")}, {}>>
 BaseMembersT == <<{Mem("meth", "published"), Mem("vmeth", "published"), Mem("vdtor", "published")}, {}>>
@@ -65,6 +84,8 @@ WF ==
   /\ \A c \in 1..NC : Cardinality({i \in 1..NM(c) : Mbr(c, i).k = "opeq"}) <= 1
   /\ \A c \in 1..NC : Cardinality({i \in 1..NM(c) : Mbr(c, i).k = "opneg"}) <= 1
   /\ \A c \in 1..NC : Cardinality({i \in 1..NM(c) : Mbr(c, i).k = "cast"}) <= 1
+  \* no two members with the same name and parameter list
+  /\ \A c \in 1..NC : \A i, j \in 1..NM(c) : (i # j /\ Mbr(c, i).nm # "") => Mbr(c, i) # Mbr(c, j)
   \* a class appears at most once in a class's inheritance graph (no ambiguous bases)
   /\ \A c \in 1..NC : \A b1, b2 \in 1..Len(Cls(c).bases) :
        b1 # b2 => /\ Cls(c).bases[b1].c # Cls(c).bases[b2].c
@@ -88,11 +109,21 @@ ShapeSig(c, k) ==
 SigOf(c, i) == IF Mbr(c, i).k = "sig" THEN Mbr(c, i).sig ELSE ShapeSig(c, Mbr(c, i).k)
 IsFn(k) == k \in {"sig", "meth", "smeth", "vmeth", "opeq", "opneg", "cast"}
 
+\* an operator declared without an explicit parameter is a unary operator function; it is a function of its own, not an
+\* overload of the binary operator of the same name
+IsOperatorName(n) == n \in TwoFormOps \cup {"operator !", "operator ~", "operator ++", "operator --", "operator ==", "operator /"}
+UnaryFn(c, i) == Mbr(c, i).k = "opneg" \/ (Mbr(c, i).k = "sig" /\ IsOperatorName(Mbr(c, i).nm) /\ Mbr(c, i).sig.ps = <<>>)
+TypecastFn(c, i) == Mbr(c, i).k = "cast" \/ Mbr(c, i).nm \in TypecastNames
+\* function identity: members of one class declared under the same name with the same unary-ness are ONE function
+FnId(c, i) == [name |-> Mbr(c, i).nm, unary |-> UnaryFn(c, i), anon |-> IF Mbr(c, i).nm = "" THEN i ELSE 0]
 FnDesc(c, i) == LET s == SigOf(c, i) k == Mbr(c, i).k IN
-  [c |-> c, i |-> i, variants |-> Variants(c, s), ret |-> RetFacts(c, s),
+  [c |-> c, i |-> i, variants |-> Variants(c, s), ret |-> RetFacts(c, s), fid |-> FnId(c, i),
    flags |-> [method |-> TRUE, virtual |-> s.role = "virt", ctor |-> s.role = "ctor",
-              unary |-> k = "opneg", typecast |-> k = "cast"],
+              unary |-> UnaryFn(c, i), typecast |-> TypecastFn(c, i)],
    cm |-> Mbr(c, i).cm]
+FnMembers(c) == {i \in 1..NM(c) : [t |-> "m", c |-> c, i |-> i] \in RCallable /\ IsFn(Mbr(c, i).k)}
+NMethods(c) == Cardinality({FnId(c, i) : i \in {j \in FnMembers(c) : ~TypecastFn(c, j) /\ SigOf(c, j).role # "ctor"}})
+NCasts(c) == Cardinality({FnId(c, i) : i \in {j \in FnMembers(c) : TypecastFn(c, j)}})
 \* a data member: element + synthesized accessor functions
 DataDesc(c, i) == LET k == Mbr(c, i).k IN
   [c |-> c, i |-> i, setter |-> k # "cdata", static |-> k = "sdata", cm |-> Mbr(c, i).cm]
@@ -106,6 +137,7 @@ Describe ==
    data |-> {DataDesc(e.c, e.i) : e \in {x \in RCallable : x.t = "m" /\ Mbr(x.c, x.i).k \in {"data", "cdata", "sdata"}}},
    dtors |-> {DtorDesc(e.c, e.i) : e \in {x \in RCallable : x.t = "m" /\ Mbr(x.c, x.i).k \in {"dtor", "vdtor"}}},
    classes |-> {[c |-> x.c, derivations |-> Derivations(x.c), cm |-> Cls(x.c).cm, poly |-> Poly(x.c),
+                 nmethods |-> NMethods(x.c), ncasts |-> NCasts(x.c),
                  nested |-> Cls(x.c).outer # 0, outer |-> Cls(x.c).outer] : x \in {y \in RDefined : IsClassT(y)}},
    enums |-> {[c |-> x.c, i |-> x.i, cm |-> Mbr(x.c, x.i).cm] : x \in {y \in RDefined : ~IsClassT(y)}},
    tops |-> {[t |-> e.i, cm |-> lib.tops[e.i].cm] : e \in {x \in RCallable : x.t = "t"}},
